@@ -308,6 +308,7 @@ impl WorkerPool {
     pub fn dispatch(&self, packet: Vec<u8>) -> DispatchResult {
         // Check if pool is shutting down
         if self.shutdown_flag.load(Ordering::Relaxed) {
+            self.dropped_count.fetch_add(1, Ordering::Relaxed);
             return DispatchResult::Dropped;
         }
 
